@@ -170,6 +170,7 @@ fn free_stress(ctx: &mut Ctx, prop: &'static str, classes: &'static [&'static st
             case.requested.push(0);
         }
         case.subdirs = r.gen_bool(0.3);
+        case.shaped = r.gen_bool(0.3);
         case.dup_edges = r.gen_bool(0.3);
         let natural = k % 8 == 0;
         let spec = if natural { Spec::Natural { delay: Some((r.gen(), 1500)) } } else { Spec::Free { delay: Some((r.gen(), 800)) } };
@@ -225,6 +226,24 @@ fn run_c02(ctx: &mut Ctx) {
         case.dup_edges = r.gen_bool(0.3);
         sampled_schedules(ctx, "C02", C02_CLASSES, &case, &mut r, ctx.tier.pick(3, 12), *mask != 0);
     }
+    // thorough: every labelled DAG on 4 files, everything requested, 2 threads, eager-receive DFS (capped)
+    if ctx.tier == Tier::Thorough {
+        for (i, mask) in dags4.iter().enumerate() {
+            if !ctx.time_left() {
+                break;
+            }
+            if !ctx.claim(3_000_000 + i as u64) {
+                continue;
+            }
+            let mut case = GraphCase::new(4, *mask);
+            case.markers = false;
+            case.threads = 2;
+            if !dfs_case(ctx, "C02", C02_CLASSES, &case, 4_000, true, *mask != 0) {
+                break;
+            }
+            ctx.count("four_file_dags_dfs", 1);
+        }
+    }
     // early poll at every choice point of a few fixed graphs (chain, diamond, fan-in)
     for (n, mask) in [(3usize, 0b100_010u64), (4, 0b0000_1000_1000_0110), (3, 0b000_000_110)] {
         let points = ctx.tier.pick(4u32, 14);
@@ -277,7 +296,13 @@ fn run_c02(ctx: &mut Ctx) {
                         // directory input: half of the cases keep odd files in a sub-directory, so that a
                         // file can be discovered as a dependency before its directory listing arrives
                         case.subdirs = style == 4 && n >= 2 && k % 2 == 0;
+                        // a third of the cases name odd files `fN.v2.txtpp.txt` (dotted stem, middle shape)
+                        case.shaped = n >= 2 && k % 3 == 0;
                         if !dfs_case(ctx, "C02", C02_CLASSES, &case, cap, true, edge_count(mask) > 0) {
+                            break 'all;
+                        }
+                        // thorough: the coordinator's receive as a separate, freely interleaved step
+                        if ctx.tier == Tier::Thorough && !dfs_case(ctx, "C02", C02_CLASSES, &case, cap, false, edge_count(mask) > 0) {
                             break 'all;
                         }
                     }
@@ -408,6 +433,9 @@ fn digraph_enumeration(ctx: &mut Ctx, prop: &'static str, classes: &'static [&'s
                     case.subdirs = n >= 2 && k % 7 == 0 && style != 9;
                     let nontrivial = if cyclic_only_nontrivial { cyclic } else { n >= 2 || style >= 3 };
                     if !dfs_case(ctx, prop, classes, &case, cap, true, nontrivial) {
+                        break 'all;
+                    }
+                    if ctx.tier == Tier::Thorough && style == 0 && !dfs_case(ctx, prop, classes, &case, cap, false, nontrivial) {
                         break 'all;
                     }
                 }
